@@ -1325,16 +1325,28 @@ impl TypeChecker {
                 ref b @ RecordVar(_, ref b_fields),
             ) => {
                 self.unify_fields(&a_fields, b_fields)?;
+                // Unifying the fields does not rule out that `b` contains
+                // `a_var` (the never type unifies with anything), so
+                // this needs the occurs check as well.
+                if self.occurs(a_var, b) {
+                    return None;
+                }
                 self.type_info.unionfind.set(a_var, b.clone());
                 b.clone()
             }
             (RecordVar(a_var, a_fields), ref b @ Record(ref b_fields)) => {
                 self.unify_fields(&a_fields, b_fields)?;
+                if self.occurs(a_var, b) {
+                    return None;
+                }
                 self.type_info.unionfind.set(a_var, b.clone());
                 b.clone()
             }
             (ref a @ Record(ref a_fields), RecordVar(b_var, b_fields)) => {
                 self.unify_fields(a_fields, &b_fields)?;
+                if self.occurs(b_var, a) {
+                    return None;
+                }
                 self.type_info.unionfind.set(b_var, a.clone());
                 a.clone()
             }
@@ -1344,8 +1356,12 @@ impl TypeChecker {
                 let named_fields = type_def.record_fields(&name.arguments)?;
 
                 self.unify_fields(&fields, &named_fields)?;
-                self.type_info.unionfind.set(var, Name(name.clone()));
-                Name(name)
+                let b = Name(name);
+                if self.occurs(var, &b) {
+                    return None;
+                }
+                self.type_info.unionfind.set(var, b.clone());
+                b
             }
             // Type names unify if they have the same name and their arguments
             // can be unified.
